@@ -96,7 +96,7 @@ class CFG:
                 out = self._block(s.orelse, out, ctx)
             return out + lctx['loop']['breaks']
         if isinstance(s, ast.With):
-            n = self._new(s, 'with')
+            n = self._new(s, 'with', ast.Tuple(elts=[it.context_expr for it in s.items], ctx=ast.Load()))
             self._link(preds, n)
             for it in s.items:
                 self._maybe_exc(n, it.context_expr, ctx)
